@@ -72,6 +72,16 @@ def plain(v, _stack=()):
     if isinstance(v, (list, tuple)): return [plain(x, _stack) for x in v]
     return v
 
+def untracked(v, _stack=()):
+    """a plain deep copy that keeps tuples (what `make` is given when a value of the session is handed over)"""
+    if isinstance(v, (dict, list, tuple)):
+        if id(v) in _stack: return '<cycle>'
+        _stack = _stack + (id(v),)
+    if isinstance(v, dict): return {k: untracked(x, _stack) for k, x in v.items()}
+    if isinstance(v, list): return [untracked(x, _stack) for x in v]
+    if isinstance(v, tuple): return tuple(untracked(x, _stack) for x in v)
+    return v
+
 def canon(v):
     return json.dumps(plain(v), sort_keys=True)
 
@@ -431,6 +441,12 @@ def execute(env, attr, init, prog, created=False, source=None):
                 if not more: break
                 prog.extend(more)
             op = prog[idx]
+            if op['op'] in ('call', 'assign') and st['e']._status_ in ('created', 'modified') and not st.get('quiet') \
+                    and any(r_[0] in ('attr', 'obj2') for r_ in refs_of(op)):
+                # taking a value from another attribute / object may have to query the database, and Pony saves the pending changes
+                # before any query: the flush is made explicit (the program stays self-describing, the model sees it)
+                prog.insert(idx, {'op': 'flush'})
+                op = prog[idx]
             o = op['op']; res.executed = idx + 1
             if st.get('quiet') and o in ('call', 'read', 'readattr', 'assign', 'other'):
                 # after a flush that was not followed by a look at the attribute: anything that touches the database may have to save
@@ -463,7 +479,7 @@ def execute(env, attr, init, prog, created=False, source=None):
                 c = op
                 reals = resolve_refs(c)
                 if reals is None: continue
-                plains = {k: copy.deepcopy(plain(v)) for k, v in reals.items()}
+                plains = {k: untracked(v) for k, v in reals.items()}
                 as_plain = lambda ref: copy.deepcopy(plains[json.dumps(ref)])      # Pony copies what is handed in (make): so does the mirror
                 RESOLVE[0] = as_plain
                 mm = model_mut(c, y)
@@ -535,7 +551,7 @@ def execute(env, attr, init, prog, created=False, source=None):
             if o == 'assign':
                 reals = resolve_refs(op)
                 if reals is None: continue
-                plains = {k: copy.deepcopy(plain(v)) for k, v in reals.items()}
+                plains = {k: untracked(v) for k, v in reals.items()}
                 v = op['v']
                 same = None
                 if isinstance(v, dict) and '$ref' in v and bound(reals[json.dumps(v['$ref'])], (st['e'], getattr(E, attr))):
